@@ -19,7 +19,7 @@ def rows():
         if m.get('obsolete'):
             caught = ['— (obsolete, see below)']
         caught.sort(key=lambda c: (c != own, c))
-        rnd = 1 if len(ID) == 3 else {'b': 2, 'c': 3, 'd': 3, 'e': 4, 'f': 4, 'g': 5, 'h': 5, 'i': 6, 'j': 6, 'k': 7, 'l': 7, 'm': 8}[ID[3]]
+        rnd = 1 if len(ID) == 3 else {'b': 2, 'c': 3, 'd': 3, 'e': 4, 'f': 4, 'g': 5, 'h': 5, 'i': 6, 'j': 6, 'k': 7, 'l': 7, 'm': 8, 'n': 8}[ID[3]]
         out.append((ID, rnd, own, ','.join(m.get('files_changed', [])), ','.join(caught), 'yes' if m.get('history') else ''))
     return out
 if __name__ == '__main__':
